@@ -8,6 +8,8 @@ import (
 	"os"
 	"testing"
 
+	"github.com/google/uuid"
+
 	"github.com/tucats/ego/internal/verifh/srvfix"
 )
 
@@ -60,3 +62,5 @@ func clientBody(r srvfix.Response) ([]byte, bool, error) {
 		return nil, false, fmt.Errorf("unexpected Content-Encoding %q", enc)
 	}
 }
+
+func newUUID() uuid.UUID { return uuid.New() }
